@@ -86,11 +86,11 @@ Theorem c24_weekly_refuted_same_day :
 Proof. exact refuted_sameday. Qed.
 Print Assumptions c24_weekly_refuted_same_day.
 
-(* wrapping week (Friday 09:00 -> Monday 17:00) polled every minute from Thursday 23:59: still
-   active on Tuesday noon -- the deactivation branch wants wday strictly above the end day *)
+(* wrapping week (Friday 09:00 -> Monday 17:00) polled every minute from Monday 16:59 (inside the
+   window, flag on): still active on Tuesday noon -- the deactivation branch wants wday strictly above the end day *)
 Theorem c24_weekly_refuted_wrapping :
-  refutes w_wrap_c false w_wrap_ts /\ start_consistent w_wrap_c false w_wrap_ts = true /\
-  exists bits i, run_o w_wrap_c false w_wrap_ts = Some bits /\
+  refutes w_wrap_c true w_wrap_ts /\ start_consistent w_wrap_c true w_wrap_ts = true /\
+  exists bits i, run_o w_wrap_c true w_wrap_ts = Some bits /\
     nth_error w_wrap_ts i = Some (at_ 9 12 0 0) /\ nth_error bits i = Some true /\
     active 5 1 (hms_ns 9 0 0) (Some (hms_ns 17 0 0)) (at_ 9 12 0 0) = false.
 Proof. exact refuted_wrapping. Qed.
@@ -150,12 +150,12 @@ Print Assumptions c24_config.
 
 (* ---------------------------------------------------------------- non-vacuity *)
 
-(* Monday-Friday 09:00-17:00 at UTC+60 polled every minute for three weeks from a Sunday: all
-   hypotheses of c24_weekly_partial hold and the flag is on for 3 x 6241 of the 30240 polls. *)
+(* Monday-Friday 09:00-17:00 at UTC+60 polled every minute for eight days from a Sunday: all
+   hypotheses of c24_weekly_partial hold and the flag is on for 6241 of the 11520 polls. *)
 Theorem c24_nonvacuous :
   ranges_okb nv_c = true /\ weekly_hyp 1 5 (hms_ns 9 0 0) (hms_ns 17 0 0) = true /\
   instants_okb nv_c nv_ts = true /\ gaps_ok nv_ts = true /\ start_consistent nv_c false nv_ts = true /\
   exists bits, run_o nv_c false nv_ts = Some bits /\
-    Z.of_nat (length (filter (fun b => b) bits)) = 3 * 6241 /\ Z.of_nat (length bits) = 30240.
+    Z.of_nat (length (filter (fun b => b) bits)) = 6241 /\ Z.of_nat (length bits) = 11520.
 Proof. exact nonvacuous_weekly. Qed.
 Print Assumptions c24_nonvacuous.
